@@ -374,18 +374,18 @@ def rule_f(ctx):
 
 
 def run(ctx):
-    rule_f(ctx)
+    ctx.guard(rule_f, ctx)
     ctx.consult(MOD)
     from .common import rule_abs_tolerance
     _m = ctx.model
     rule_abs_tolerance(ctx, "C06.g", list(_m.mod(MOD).funcs.values()) + [f for k in _m.mod(MOD).classes.values() for f in k.methods.values()]
                        + [f for k in _m.mod("darsia.utils.grid").classes.values() for f in k.methods.values()],
                        "the discrete operators are linear: averages, divergences and reconstructions of a rescaled field are the rescaled results")
-    rule_a(ctx)
-    rule_b(ctx)
-    rule_c(ctx)
-    rule_d(ctx)
-    rule_e(ctx)
+    ctx.guard(rule_a, ctx)
+    ctx.guard(rule_b, ctx)
+    ctx.guard(rule_c, ctx)
+    ctx.guard(rule_d, ctx)
+    ctx.guard(rule_e, ctx)
     # FVDivergence scales the fluxes with grid.face_vol: the face areas must be the products of the other axes' voxel sizes (C07.d)
     from . import c07
     from .common import shared
